@@ -75,8 +75,15 @@ impl Forge {
             "extraQ" => Forge { q: QMut::Extra, ..g },
             "noQ" => Forge { q: QMut::Empty, ..g },
             "subsetQ" => Forge { q: QMut::FirstOnly, ..g },
-            "garbage" => Forge { garbage: Some(0), ..g },
+            "garbage" => Forge { garbage: Some(1), ..g },
             "garbageOff" => Forge { bad_ip: true, garbage: Some(1), ..g },
+            "garbagePort" => Forge { bad_port: true, garbage: Some(1), ..g },
+            "short" => Forge { garbage: Some(0), ..g },
+            "shortOff" => Forge { bad_ip: true, garbage: Some(0), ..g },
+            "shortPort" => Forge { bad_port: true, garbage: Some(0), ..g },
+            "queryCopy" => Forge { garbage: Some(2), ..g },
+            "queryOff" => Forge { bad_ip: true, garbage: Some(2), ..g },
+            "queryPort" => Forge { bad_port: true, garbage: Some(2), ..g },
             _ => return None,
         })
     }
@@ -126,7 +133,7 @@ fn unasked_name() -> Vec<Vec<u8>> {
     vec![b"evil".to_vec(), b"attacker".to_vec(), b"invalid".to_vec()]
 }
 
-fn concretise(p: &Planned, req: &Parsed, server: SocketAddr, due: tokio::time::Instant, rng: &mut StdRng) -> Concrete {
+fn concretise(p: &Planned, req: &Parsed, raw: &[u8], server: SocketAddr, due: tokio::time::Instant, rng: &mut StdRng) -> Concrete {
     let f = &p.forge;
     let src = SocketAddr::new(
         if f.bad_ip { other_ip(server.ip()) } else { server.ip() },
@@ -134,9 +141,12 @@ fn concretise(p: &Planned, req: &Parsed, server: SocketAddr, due: tokio::time::I
     );
     let owner = req.qs.first().map(|q| q.name.clone()).unwrap_or_default();
     if let Some(g) = f.garbage {
-        let bytes = match g % 2 {
+        // three shapes of "not a DNS response"
+        let bytes = match g % 3 {
             // shorter than a DNS header
             0 => vec![0xde, 0xad, 0xbe, 0xef, 0x01],
+            // the request itself, reflected: a well-formed DNS message with QR = 0
+            2 => raw.to_vec(),
             // a header announcing one question, cut inside the question name
             _ => {
                 let full = wire::build_response(req.id, &req.qs, &owner, p.tag);
@@ -338,7 +348,7 @@ impl DnsUdpSocket for ScriptedUdp {
         let server = s.server;
         let mut q = VecDeque::new();
         for p in &planned {
-            q.push_back(concretise(p, &req, server, now + Duration::from_millis(p.at_ms), &mut s.rng));
+            q.push_back(concretise(p, &req, buf, server, now + Duration::from_millis(p.at_ms), &mut s.rng));
         }
         s.queues[self.t] = Some(q);
         Poll::Ready(Ok(buf.len()))
@@ -498,6 +508,9 @@ pub async fn replay_one(ln: usize, c: &Value, trace: &mut dyn io::Write, out: &m
         "examined-more-than-three".to_string()
     } else if r.o == "accept" {
         format!("accepted:{}", if acc_kind.is_empty() { "unidentified" } else { &acc_kind })
+    } else if r.o == "error" && ex >= 1 && ex <= sched.len() {
+        // label only: the kind name of the last datagram examined before the query failed
+        format!("failed-on:{}", sched[ex - 1])
     } else {
         format!("outcome:{}", r.o)
     };
@@ -648,9 +661,20 @@ fn random_forge(rng: &mut StdRng) -> (Forge, String) {
     if !qn.is_empty() {
         kind.push(qn);
     }
-    if rng.random_bool(0.06) {
-        f.garbage = Some(rng.random_range(0..2));
-        kind.push("garbage");
+    if rng.random_bool(0.1) {
+        let g = rng.random_range(0..3u8);
+        f.garbage = Some(g);
+        kind.push(["short", "garbage", "queryCopy"][g as usize]);
+        // half of them from elsewhere: anybody can send junk to the local port
+        if !f.bad_ip && !f.bad_port && rng.random_bool(0.5) {
+            if rng.random_bool(0.5) {
+                f.bad_ip = true;
+                kind.push("ip");
+            } else {
+                f.bad_port = true;
+                kind.push("port");
+            }
+        }
     }
     if kind.is_empty() && rng.random_bool(0.8) {
         // a datagram that is right in every respect is rarely what an attacker sends
